@@ -135,3 +135,131 @@ func oneShotClose(res *fw.Result) error {
 	res.Eval(true, []interface{}{"oneshot-close"})
 	return nil
 }
+
+// SubLostResponse: an untagged channel-returning call whose response is lost with the connection — the
+// handler has run, the channel-id response is cut before its first byte (or inside it), the client
+// reconnects.  The library must not send the request again on the new connection.
+func SubLostResponse(d *fw.Driver, res *fw.Result, seed int64) error {
+	for i, pos := range []string{"before", "mid"} {
+		run, closer, cancel, err := newRunner(seed+int64(i)*17, 2, true)
+		if err != nil {
+			return err
+		}
+		sig := "subscription response lost pos=" + pos
+		base := nextToks(20)
+		f := run.E.PX.Arm(pxFault("s2c", 0, pos, "rst"))
+		c := run.Go("sub", base, "response-lost")
+		select {
+		case <-f.Struck:
+		case <-time.After(2 * time.Second):
+		}
+		healed := run.Probe(base+10, 4*time.Second)
+		if !healed {
+			res.Add(fw.Finding{Kind: "monitor", Signature: sig + " never heals", Detail: "no call succeeded within 4s after the loss"})
+		}
+		c.Wait(2 * time.Second)
+		time.Sleep(20 * time.Millisecond) // a re-sent request would be executed by now
+		run.Verdicts(res, sig, 1500*time.Millisecond)
+		WireCounts(res, run, sig)
+		scenClose(res, closer, sig)
+		time.Sleep(3 * time.Millisecond)
+		evs := run.E.RT.Events()
+		if _, err := Check(d, res, evs, ClientConn(evs), sig); err != nil {
+			cancel()
+			run.E.Close()
+			return err
+		}
+		res.Count("sub.lost-response." + pos)
+		res.Eval(true, []interface{}{"sub-lost-response", pos})
+		cancel()
+		run.E.Close()
+	}
+	return nil
+}
+
+func scenClose(res *fw.Result, closer jsonrpc.ClientCloser, sig string) {
+	done := make(chan struct{})
+	go func() { closer(); close(done) }()
+	select {
+	case <-done:
+	case <-time.After(5 * time.Second):
+		res.Add(fw.Finding{Kind: "monitor", Signature: sig + " closer hangs", Detail: "the client's closer did not return within 5s"})
+	}
+}
+
+// OneShotAtMostOnce: over HTTP (and a custom transport) a request whose connection dies after the server
+// executed it and before any response byte was written must surface an error to the caller — the
+// library never sends it again on its own initiative.
+func OneShotAtMostOnce(res *fw.Result) error {
+	for _, mode := range []string{"close-after-exec", "reset-after-exec", "close-after-partial-response"} {
+		var execs int64
+		ts := httptest.NewServer(http.HandlerFunc(func(w http.ResponseWriter, r *http.Request) {
+			var rq struct {
+				ID     interface{}   `json:"id"`
+				Params []interface{} `json:"params"`
+			}
+			json.NewDecoder(r.Body).Decode(&rq)
+			n := atomic.AddInt64(&execs, 1) // "the handler ran"
+			if n > 1 {
+				// a second delivery of the same request: answer it, so that a re-sending client looks healthy
+				idb, _ := json.Marshal(rq.ID)
+				w.Write([]byte(`{"jsonrpc":"2.0","result":3,"id":` + string(idb) + `}`))
+				return
+			}
+			hj, ok := w.(http.Hijacker)
+			if !ok {
+				return
+			}
+			conn, buf, err := hj.Hijack()
+			if err != nil {
+				return
+			}
+			switch mode {
+			case "reset-after-exec":
+				if tc, ok := conn.(interface{ SetLinger(int) error }); ok {
+					tc.SetLinger(0)
+				}
+			case "close-after-partial-response":
+				buf.WriteString("HTTP/1.1 200 OK\r\nContent-Type: application/json\r\nContent-Length: 40\r\n\r\n{\"jsonrpc\":")
+				buf.Flush()
+			}
+			conn.Close()
+		}))
+		var cl struct {
+			Add func(int, int) (int, error)
+		}
+		closer, err := jsonrpc.NewMergeClient(context.Background(), ts.URL, "SH", []interface{}{&cl}, nil)
+		if err != nil {
+			ts.Close()
+			return err
+		}
+		type out struct {
+			v   int
+			err error
+		}
+		ch := make(chan out, 1)
+		go func() { v, err := cl.Add(1, 2); ch <- out{v, err} }()
+		sig := "http connection dies after execution mode=" + mode
+		select {
+		case o := <-ch:
+			n := atomic.LoadInt64(&execs)
+			switch {
+			case n > 1:
+				res.Add(fw.Finding{Kind: "monitor", Signature: sig + " executed twice", Detail: fmt.Sprintf("the server received the request of one untagged HTTP call %d times (caller got %d, %v): the library re-sent it on its own initiative", n, o.v, o.err),
+					Case: map[string]interface{}{"scenario": "oneshot-at-most-once", "mode": mode}})
+			case o.err == nil:
+				res.Add(fw.Finding{Kind: "monitor", Signature: sig + " no error", Detail: fmt.Sprintf("the caller got %d without error although no response was ever written", o.v),
+					Case: map[string]interface{}{"scenario": "oneshot-at-most-once", "mode": mode}})
+			}
+		case <-time.After(5 * time.Second):
+			res.Add(fw.Finding{Kind: "monitor", Signature: sig + " hangs", Detail: "the HTTP call did not return within 5s of its connection being closed",
+				Case: map[string]interface{}{"scenario": "oneshot-at-most-once", "mode": mode}})
+		}
+		closer()
+		ts.CloseClientConnections()
+		ts.Close()
+		res.Count("oneshot.atmostonce." + mode)
+		res.Eval(true, []interface{}{"oneshot-at-most-once", mode})
+	}
+	return nil
+}
